@@ -147,6 +147,29 @@ def do_replay(path):
     return 1 if res["violated"] else 0
 
 
+def _rt_child(fn, tier, seed, q):
+    import importlib as _il
+    import traceback as _tb
+    modname, fname = fn.split(":")
+    try:
+        # the compiled extension prints Rust panic messages to fd 2 (they surface as Python exceptions and are handled by
+        # the stand-ins): keep them out of the check's output, in a log next to the replay files
+        os.makedirs(os.path.join(HERE, "replay"), exist_ok=True)
+        fd = os.open(os.path.join(HERE, "replay", f"stderr-{fname}.log"), os.O_WRONLY | os.O_CREAT | os.O_TRUNC)
+        os.dup2(fd, 2)
+    except Exception:
+        pass
+    try:
+        res = getattr(_il.import_module(modname), fname)(tier, seed)
+    except BaseException as e:
+        res = {"name": fn, "error": f"{type(e).__name__}: {e}", "traceback": _tb.format_exc()[-3000:]}
+    try:
+        import json as _json
+        q.put(_json.loads(_json.dumps(res, default=str)))
+    except BaseException as e:
+        q.put({"name": fn, "error": f"result not serialisable: {e!r}"})
+
+
 def _merge_desugar(results):
     """what pyvc.desugar rewrote in the module text that was verified (comprehensions -> map/filter/lambda, for-loops ->
     body function + __pyvc_for__); everything else is compiled as it stands in the tree under check"""
@@ -278,14 +301,30 @@ def main():
 
     # bounded stand-ins / runtime checks
     rt_results = []
+    # every stand-in runs in its own process, all of them at once, under a wall-clock cap: a hang of the code under check
+    # (or of the compiled extension) must not hang the check
+    rt_cap = int(os.environ.get("VERIF_RT_TIMEOUT", "1200" if a.tier == "quick" else "5400"))
+    procs = []
+    import multiprocessing as _mp
+    ctxmp = _mp.get_context("fork")
     for fn in prop.get("rt", []):
-        modname, fname = fn.split(":")
-        mod = importlib.import_module(modname)
-        t1 = time.time()
+        q = ctxmp.Queue()
+        p_ = ctxmp.Process(target=_rt_child, args=(fn, a.tier, seed, q))
+        p_.start()
+        procs.append((fn, p_, q, time.time()))
+    for fn, p_, q, t1 in procs:
+        res = None
         try:
-            res = getattr(mod, fname)(a.tier, seed)
-        except Exception as e:
-            res = {"name": fn, "error": f"{type(e).__name__}: {e}", "traceback": traceback.format_exc()}
+            res = q.get(timeout=max(1, rt_cap - (time.time() - t1)))
+        except Exception:
+            res = None
+        p_.join(timeout=5)
+        if p_.is_alive():
+            p_.terminate()
+        if res is None:
+            res = {"name": fn, "error": f"no result within {rt_cap}s (hang or crash of the stand-in process)"}
+            undecided.append({"name": f"stand-in {fn}", "reason": res["error"]})
+        elif res.get("error"):
             errors.append(f"rt {fn}: {res['error']}")
         res["wall"] = round(time.time() - t1, 2)
         rt_results.append(res)
